@@ -583,6 +583,16 @@ func c01RuleSet(r *rng) []c01Method {
 			c01Method{Svc: "S3", Name: "X", Bindings: []c01Binding{{Verb: "GET", Tmpl: "/aa/{s1}"}}})
 	case 2:
 		ms = append(ms, c01Method{Svc: "S3", Name: "Imp", Bindings: []c01Binding{{Verb: "GET", Tmpl: "/verif.rt.S3/Imp"}}})
+	case 3:
+		// a rule that spells the method's own implicit binding ('*' on /Service/Method) and brings
+		// additional bindings; as an annotation or as a service-config rule
+		own := c01Binding{Verb: "*", Tmpl: "/verif.rt.S3/Own"}
+		adds := []c01Binding{{Verb: r.picks(c01Verbs), Tmpl: c01Tmpl(r)}, {Verb: "GET", Tmpl: "/own/{s1}"}}
+		if r.bool() {
+			ms = append(ms, c01Method{Svc: "S3", Name: "Own", Bindings: append([]c01Binding{own}, adds...)})
+		} else {
+			ms = append(ms, c01Method{Svc: "S3", Name: "Own", Config: append([]c01Binding{own}, adds...)})
+		}
 	}
 	return ms
 }
@@ -808,6 +818,12 @@ func c16Gen(o *out, r *rng, tier string) {
 			}
 		}
 	}
+	// a rule that re-declares the method's own implicit '*' binding: its additional bindings count like any others
+	for _, b := range bad {
+		emit(0, []c01Method{{Svc: "S1", Name: "M", Bindings: []c01Binding{{Verb: "*", Tmpl: "/verif.rt.S1/M"}, {Verb: "GET", Tmpl: "/ok/{s1}"}, b}}})
+		emit(1, []c01Method{{Svc: "S1", Name: "M", Config: []c01Binding{{Verb: "*", Tmpl: "/verif.rt.S1/M"}, b}}})
+	}
+	emit(0, []c01Method{{Svc: "S1", Name: "M", Bindings: []c01Binding{{Verb: "*", Tmpl: "/verif.rt.S1/M"}, {Verb: "GET", Tmpl: "/ok/{s1}"}}}})
 	// long templates around the 64-token cap
 	for k := 28; k <= 33; k++ {
 		emit(0, one(strings.Repeat("/a", k), ""))
